@@ -357,6 +357,7 @@ def run(chk, ctx):
     from . import c01
     c01.r1(chk, ctx, ctx.protocol(), ctx.mod('state_engine'))  # where the templates are evaluated: once per state / per Map item, on the documented input
     from . import round4
+    round4.execution_input_is_a_copy(chk, ctx)   # 'the context is left unmodified' while states update the event data
     round4.intrinsics_pure(chk, ctx)
     round4.template_context_single(chk, ctx)
     round4.fresh_iteration_input(chk, ctx)   # ItemSelector is evaluated for every item
